@@ -68,6 +68,13 @@ func propC19(c *Ctx) propInfo {
 	trav := map[string]bool{"tonconnect": true, "ton": true, "wallet": true, "boc": true, "tlb": true, "utils": true}
 	c.panicFree(e1cfg{roots: roots, pkgs: map[string]bool{"tonconnect": true, "ton": true}, traverse: trav, maxDepth: c.e1Depth(), exc: excC19, excP5: map[string]excEntry{}})
 	c.errflow(excC19E2, "tonconnect")
+	c.tonconnectSmallFacts()
+	for _, f := range c.moduleFuncs("tonconnect") {
+		c.presenceGuards(f)
+		c.defaultingPolarity(f)
+		c.lengthMatchGuards(f)
+	}
+	c.radixDiscipline("E11.radix", "tonconnect", "ton")
 	c.floor("E1.P2-bounds", 10)
 	c.floor("E2.R-drop", 10)
 	c.tonProofLayout()
@@ -307,4 +314,83 @@ func (c *Ctx) proofDataflow() {
 		c.check(okv && okStore, R, "client signs the same createMessage and stores the signature", g.Pos(), "signMessage(key, createMessage(convert(proof)))", "CreateSignedProof no longer signs createMessage's output / stores the signature in the proof")
 	}
 	c.floor(R, 25)
+}
+
+// tonconnectSmallFacts (after the mutation battery).
+func (c *Ctx) tonconnectSmallFacts() {
+	const R = "E15.proof-dataflow"
+	// StaticDomain(d) accepts exactly d
+	if f := c.fn("tonconnect", "StaticDomain"); f != nil {
+		okv := false
+		for _, a := range f.AnonFuncs {
+			for _, r := range returnsOf(a) {
+				if bo, ok := retVal(r, 0).(*ssa.BinOp); ok && bo.Op == token.EQL {
+					_, p1 := bo.X.(*ssa.Parameter)
+					_, p2 := bo.Y.(*ssa.Parameter)
+					fv1 := derivesFrom(bo.X, func(v ssa.Value) bool { _, ok := v.(*ssa.FreeVar); return ok }, false)
+					fv2 := derivesFrom(bo.Y, func(v ssa.Value) bool { _, ok := v.(*ssa.FreeVar); return ok }, false)
+					okv = (p1 && fv2) || (p2 && fv1)
+				}
+			}
+		}
+		c.check(okv, R, "StaticDomain accepts exactly the configured domain", f.Pos(), "returns argument == captured domain", "tonconnect.StaticDomain no longer returns the equality of the presented domain with the configured one: a proof signed for another domain is accepted (or the right one refused)")
+	}
+	// the public key read from the chain is left-padded to 32 bytes: the length window accepts 32
+	if f := c.fn("tonconnect", "Server.getWalletPubKey"); f != nil {
+		allInstrs(f, func(b *ssa.BasicBlock, in ssa.Instruction) {
+			mk, ok := in.(*ssa.MakeSlice)
+			if !ok {
+				return
+			}
+			sub, ok := mk.Len.(*ssa.BinOp)
+			if !ok || sub.Op != token.SUB {
+				return
+			}
+			n, ok := constInt(sub.X)
+			if !ok {
+				return
+			}
+			upper := int64(-1)
+			for _, ft := range factsAt(f, b) {
+				bo, ok := ft.Cond.(*ssa.BinOp)
+				if !ok || stripConv(bo.X) != stripConv(sub.Y) && shape(bo.X, 3) != shape(sub.Y, 3) {
+					continue
+				}
+				k, ok := constInt(bo.Y)
+				if !ok {
+					continue
+				}
+				op := bo.Op
+				if ft.Truth {
+					continue
+				}
+				switch op { // the condition is FALSE here
+				case token.GTR:
+					upper = k
+				case token.GEQ:
+					upper = k - 1
+				}
+			}
+			c.check(upper == n, R, "a public key of the full 32 bytes is accepted", mk.Pos(), fmt.Sprintf("length <= %d on the padding path, padded to %d", upper, n), fmt.Sprintf("getWalletPubKey pads the key to %d bytes but only lets lengths up to %d through: a key without leading zero bytes (almost every key) is refused, or a longer one makes the padding length negative", n, upper))
+		})
+	}
+	// the state-init is parsed where it was supplied
+	if f := c.fn("tonconnect", "Server.CheckProof"); f != nil {
+		for _, cl := range callsTo(f, modPath+"/tonconnect.ParseStateInit") {
+			arg := cl.Call.Args[0]
+			known := false
+			for _, ft := range factsAt(f, cl.Block()) {
+				bo, ok := ft.Cond.(*ssa.BinOp)
+				if !ok || (bo.Op != token.EQL && bo.Op != token.NEQ) {
+					continue
+				}
+				if cst, ok := bo.Y.(*ssa.Const); ok && cst.Value != nil && cst.Value.ExactString() == `""` && shape(bo.X, 4) == shape(arg, 4) {
+					if (bo.Op == token.EQL) == ft.Truth {
+						known = true
+					}
+				}
+			}
+			c.check(!known, R, "the state-init is parsed where one was supplied", cl.Pos(), "not on the path where it is the empty string", "CheckProof parses the state-init exactly on the path where it has just been found EMPTY (inverted emptiness test): a proof that brings its state-init is refused")
+		}
+	}
 }
